@@ -2684,7 +2684,9 @@ def taken_socket_is_closed(ctx: Ctx, rule: str):
         if not goal:
             ctx.fail(cons, f.loc(), f"close_connection_socket never closes the {what}", rule=rule)
             continue
-        r = g.reach(starts, normal_blocked=goal)
+        # (a close() that itself fails has been attempted - the descriptor is released all the
+        # same -, so the exceptional edge out of the close statement counts as closed too)
+        r = g.reach(starts, blocked=goal)
         if g.exit in r:
             skip = [n for n in r if n.kind == "handler"]
             ctx.fail(cons, g.loc(skip[0]) if skip else g.loc(goal[0]),
